@@ -45,6 +45,13 @@ claim("C17", "proof", "error-discipline rule over outcomes (every I/O Result tes
       "Trusted: std's read_exact semantics (Err on early EOF, retries Interrupted). Panic-freedom on error paths is C08(a).",
       "DESIGN.md 5/C17")
 
+claim("C02", "proof", "class-specialised value numbering of every decoder + bit-provenance normal form compared with a gABI reference table; exhaustive evaluation of derived accessors over their domain",
+      "For all 19 decoders x both classes the single success outcome is computed symbolically; each field's bits are shown to be exactly the ABI's bits of the ABI's read "
+      "(zero/sign extension, shifts and masks included), the reads tile [0, size), the cursor advances by the ABI size = size_for(class), and every error outcome is a "
+      "propagated read error. Decoders are straight-line, so this covers all field values; byte order is delegated to C04 (re-checked as a premise).",
+      "Trusted: ref/decode_reference.json (hand-written from the specifications); C04's read template. Derived accessors are evaluated on all 2^8 / 2^16 inputs of the term, not of the crate's code.",
+      "DESIGN.md 5/C02")
+
 for pid in ["C01", "C02", "C03", "C04", "C05", "C06", "C07", "C08", "C09", "C10", "C11", "C12", "C13", "C14", "C15", "C16", "C17", "C18", "C20"]:
     if pid not in CLAIMS:
         na(pid, "static rule designed (DESIGN.md section 5) but its checker is not built yet in this revision; not claimed until it runs silent on the tree and fires on control mutants")
